@@ -15,6 +15,72 @@ package formatter
 //@   loop 1 invariant len(intPart) >= 0
 //@   loop 1 decreases len(intPart)
 
+//@ pred FormatsOK(m) := forall k string :: {m[k]} has(m, k) ==> m[k].DecimalPlaces >= 0 && m[k].DecimalPlaces < 2147483648
+
 //@ func formatAmountQuantity
 //@   props C04 C06
+//@   requires FormatsOK(commodityFormats)
 //@   ensures [nilcase] amount == nil ==> result == ""
+
+// ---- C05: alignment column and well-formed edits; C04: lines that are not postings only lose trailing blanks ----
+
+//@ specdef dispLen(p ast.Posting) int := rcount(p.Account.Name) + ite(p.Virtual == 1 || p.Virtual == 2, 2, 0)
+
+// The global alignment column leaves at least two blanks after the longest account (width counted in characters).
+//@ func calculateGlobalAlignmentColumnWithIndent
+//@   props C05 C06
+//@   effects none
+//@   ensures [C05:wide_enough] forall i int, j int :: {transactions[i].Postings[j]} 0 <= i && i < len(transactions) && 0 <= j && j < len(transactions[i].Postings) ==> result >= indentSize + dispLen(transactions[i].Postings[j]) + 2
+//@   loop 1 invariant 0 - 1 <= rangeindex && rangeindex <= len(transactions) - 1 && maxLen >= 0
+//@   loop 1 invariant forall i int, j int :: {transactions[i].Postings[j]} 0 <= i && i <= rangeindex && 0 <= j && j < len(transactions[i].Postings) ==> maxLen >= dispLen(transactions[i].Postings[j])
+//@   loop 2 invariant 0 <= i && i < len(transactions) && 0 - 1 <= rangeindex && rangeindex <= len(transactions[i].Postings) - 1 && maxLen >= 0
+//@   loop 2 invariant forall i2 int, j int :: {transactions[i2].Postings[j]} 0 <= i2 && i2 < i && 0 <= j && j < len(transactions[i2].Postings) ==> maxLen >= dispLen(transactions[i2].Postings[j])
+//@   loop 2 invariant forall j int :: {transactions[i].Postings[j]} 0 <= j && j <= rangeindex ==> maxLen >= dispLen(transactions[i].Postings[j])
+
+//@ trusted formatPostingWithOpts
+//@   effects none
+//@ trusted CalculateAlignmentWithGlobal
+//@   effects none
+//@   ensures result.AccountCol == accountCol
+//@ trusted extractCommodityFormats
+//@   ensures result != nil && fresh(result)
+
+//@ pred PostingLinesOK(tx) := forall k int :: {tx.Postings[k]} 0 <= k && k < len(tx.Postings) ==> tx.Postings[k].Range.Start.Line >= 1 && tx.Postings[k].Range.Start.Line <= 4294967295
+
+// One edit per posting, in posting order: the whole posting line (from character 0 to its UTF-16 length) is rewritten.
+//@ func formatTransactionWithOpts
+//@   props C05 C04 C06
+//@   requires [ptrs] tx != nil && mapper != nil
+//@   requires [indent] opts.IndentSize >= 0
+//@   requires [lines] PostingLinesOK(tx)
+//@   requires [small] len(mapper.content) < 4294967296
+//@   requires len(mapper.lines) == NL(mapper.content) && len(mapper.lineStarts) == len(mapper.lines) && (forall k int :: 0 <= k && k < len(mapper.lines) ==> mapper.lines[k] == substr(mapper.content, LS(mapper.content, k), LE(mapper.content, k)) && mapper.lineStarts[k] == LS(mapper.content, k))
+//@   ensures [C05:one_per_posting] len(result) == len(tx.Postings)
+//@   ensures [C05:whole_line] forall e int :: 0 <= e && e < len(result) ==> result[e].Range.Start.Line == tx.Postings[e].Range.Start.Line - 1 && result[e].Range.End.Line == result[e].Range.Start.Line && result[e].Range.Start.Character == 0 && result[e].Range.End.Character >= 0
+//@   loop 1 invariant 0 - 1 <= rangeindex && rangeindex <= len(tx.Postings) - 1 && len(edits) == rangeindex + 1
+//@   loop 1 invariant forall e int :: 0 <= e && e < len(edits) ==> edits[e].Range.Start.Line == tx.Postings[e].Range.Start.Line - 1 && edits[e].Range.End.Line == edits[e].Range.Start.Line && edits[e].Range.Start.Character == 0 && edits[e].Range.End.Character >= 0
+
+//@ pred MapOK(m, c) := m != nil && m.content == c && len(m.lines) == NL(c) && len(m.lineStarts) == len(m.lines) && (forall k int :: 0 <= k && k < len(m.lines) ==> m.lines[k] == substr(c, LS(c, k), LE(c, k)) && m.lineStarts[k] == LS(c, k))
+
+// Lines that are not posting lines are only ever trimmed: every edit deletes text (empty replacement) at the end of a
+// line that is not a posting line, and stays on that line.
+//@ func trimTrailingSpacesEdits
+//@   props C04 C05 C06
+//@   requires MapOK(mapper, content) && len(content) < 4294967295
+//@   ensures [C04,C05:trim_shape] forall e int :: 0 <= e && e < len(result) ==> result[e].NewText == "" && result[e].Range.Start.Line == result[e].Range.End.Line && !postingLines[result[e].Range.Start.Line] && result[e].Range.Start.Line < NL(content)
+//@   loop 1 invariant 0 - 1 <= rangeindex && rangeindex <= len(lines) - 1 && len(lines) == NL(content)
+//@   loop 1 invariant forall e int :: 0 <= e && e < len(edits) ==> edits[e].NewText == "" && edits[e].Range.Start.Line == edits[e].Range.End.Line && !postingLines[edits[e].Range.Start.Line] && edits[e].Range.Start.Line < NL(content)
+
+//@ pred JournalLinesOK(j) := forall i int, k int :: {j.Transactions[i].Postings[k]} 0 <= i && i < len(j.Transactions) && 0 <= k && k < len(j.Transactions[i].Postings) ==> j.Transactions[i].Postings[k].Range.Start.Line >= 1 && j.Transactions[i].Postings[k].Range.Start.Line <= 4294967295
+
+// Every edit is either the rewrite of a posting line or a pure deletion on a line that is not a posting line.
+//@ func FormatDocumentWithOptions
+//@   props C04 C05 C06
+//@   requires journal != nil && len(content) < 4294967295 && JournalLinesOK(journal)
+//@   ensures [C04:nonposting_only_trimmed] forall e int :: 0 <= e && e < len(result) ==> postingLines[result[e].Range.Start.Line] || result[e].NewText == ""
+//@   ensures [C05:single_line] forall e int :: 0 <= e && e < len(result) ==> result[e].Range.Start.Line == result[e].Range.End.Line
+//@   loop 1 invariant 0 - 1 <= rangeindex && rangeindex <= len(journal.Transactions) - 1 && MapOK(mapper, content) && postingLines != nil && fresh(postingLines) && opts.IndentSize > 0
+//@   loop 1 invariant forall e int :: 0 <= e && e < len(edits) ==> postingLines[edits[e].Range.Start.Line] && edits[e].Range.Start.Line == edits[e].Range.End.Line
+//@   loop 2 invariant 0 <= i && i < len(journal.Transactions) && 0 - 1 <= rangeindex && rangeindex <= len(journal.Transactions[i].Postings) - 1 && MapOK(mapper, content) && postingLines != nil && fresh(postingLines) && opts.IndentSize > 0
+//@   loop 2 invariant forall e int :: 0 <= e && e < len(edits) ==> postingLines[edits[e].Range.Start.Line] && edits[e].Range.Start.Line == edits[e].Range.End.Line
+//@   loop 2 invariant forall k int :: 0 <= k && k <= rangeindex ==> postingLines[journal.Transactions[i].Postings[k].Range.Start.Line - 1]
